@@ -189,7 +189,7 @@ def targeted_text_cases():
     out = []
     for (a, b, x) in [("staging", "final", "x"), ("s1.a", "s1.b", "t"), ("p_old", "p_new", "log"), ("src", "dst", "audit"),
                       ("m", "n", "o"), ("alpha", "beta", "gamma")]:
-        swap = f"insert into {x} select swap_partitions_between_tables('{a}', 1, 2, '{b}') as c1"
+        swap = f"insert into {x} select swap_partitions_between_tables('{a}', 1, 2, '{b}') as c1, k, v + 1 as w from feed_{x}"
         out.append({"kind": "targeted", "tag": "two-writes/single", "case": {"sql": swap, "dialect": "vertica"}})
         out.append({"kind": "targeted", "tag": "two-writes/session",
                     "case": {"sql": swap + f";\ninsert into y select * from {x};\ninsert into z select * from {b}", "dialect": "vertica",
@@ -270,14 +270,14 @@ def generated_cases(chk):
     out = []
     thorough = chk.tier == "thorough"
     R = gensql.Rand(chk.rng, max_depth=3 if thorough else 2)
-    n_stmt = 800 if thorough else 220
+    n_stmt = 600 if thorough else 220
     for i in range(n_stmt):
         s = R.stmt(chk.rng.choice([1, 2, 2, 3]) if thorough else chk.rng.choice([1, 2, 2]))
         if i % 2:
             s = starify(s, chk.rng)
         out.append({"kind": "gen-stmt", "tag": "star-heavy" if i % 2 else "plain", "ast": [s], "metadata": None,
                     "dialect": GEN_DIALECTS[i % len(GEN_DIALECTS)]})
-    n_script = 500 if thorough else 130
+    n_script = 400 if thorough else 130
     for i in range(n_script):
         stmts, md = gen_script(R, chk.rng, with_md=(i % 2 == 1))
         out.append({"kind": "gen-script", "tag": "metadata" if md else "plain", "ast": stmts, "metadata": md,
@@ -658,47 +658,54 @@ def check_orders(chk, inputs, dumps0, workdir, stats):
         pool = [x for x in strata[k] if len(x["case"]["sql"]) < 3000]
         sample += chk.rng.sample(pool, min(quota[k], len(pool)))
         stats[f"orders_sample/{k}"] = min(quota[k], len(pool))
-    orders = accessor_orders(chk.rng)
+    return run_orders(chk, sample, accessor_orders(chk.rng), workdir, stats, "ord")
+
+
+def run_orders(chk, sample, orders, workdir, stats, tag):
+    """-> True when some runner evaluated its script more than once (every further accessor call then costs a whole analysis)"""
+    reevaluates = False
     cases = []
     for inp in sample:
         c = dict(inp["case"])
         c["orders"] = orders
         cases.append(c)
     if not cases:
-        return
+        return False
     bins = split_batches(cases, min(len(cases), n_procs()))
     tasks = []
     for bi, idxs in enumerate(bins):
-        bp = os.path.join(workdir, f"ord-b{bi}.json")
+        bp = os.path.join(workdir, f"{tag}-b{bi}.json")
         with open(bp, "w", encoding="utf-8") as f:
             json.dump([cases[i] for i in idxs], f)
-        tasks.append((0, bp, os.path.join(workdir, f"ord-b{bi}-out.json")))
+        tasks.append((0, bp, os.path.join(workdir, f"{tag}-b{bi}-out.json")))
     run_batches(tasks, 1500)
     reported = set()
     for bi, idxs in enumerate(bins):
-        with open(os.path.join(workdir, f"ord-b{bi}-out.json"), encoding="utf-8") as f:
+        with open(os.path.join(workdir, f"{tag}-b{bi}-out.json"), encoding="utf-8") as f:
             res = json.load(f)["dumps"]
         for i, r in zip(idxs, res):
             inp = sample[i]
-            ref = dict((k, v) for k, v in r["fresh"][0]["answers"])
+            ref = r["single"]                 # each accessor as the only call on a fresh runner
             failed = isinstance(ref.get("source"), dict)
-            chk.count("orders:" + canon_json(inp["case"]), not failed, n=len(orders) + 3)
+            chk.count("orders:" + canon_json(inp["case"]), not failed, n=len(orders) + 3 + len(ref))
             stats["accessor_calls"] = stats.get("accessor_calls", 0) + sum(len(o) for o in orders) * 1 + 3 * len(orders[0])
             bad = None
             for oi, fr in enumerate(r["fresh"]):
                 for pos, (name, ans) in enumerate(fr["answers"]):
                     if ans != ref[name] and bad is None:
                         bad = ("fresh runner, order #%d, call %d" % (oi, pos), name, orders[oi][:pos + 1])
-                if not failed and fr["evals"] > 1 and bad is None:
-                    bad = ("evaluation ran %d times on one runner" % fr["evals"], "_eval", orders[oi])
             seqs = [orders[0], orders[-1], orders[0]]
             for si, answers in enumerate(r["same"]):
                 for pos, (name, ans) in enumerate(answers):
                     if ans != ref[name] and bad is None:
                         bad = ("same runner, round %d, call %d" % (si, pos), name, sum(seqs[:si], []) + seqs[si][:pos + 1])
-            if not failed and r.get("same_evals", 0) > 1 and bad is None:
-                bad = ("evaluation ran %d times on one runner" % r["same_evals"], "_eval", orders[0])
-            if "mutating" in r:
+            if not failed and max([fr["evals"] for fr in r["fresh"]] + [r.get("same_evals", 0), r.get("mutating_evals", 0)]) > 1:
+                # not a failure of the property by itself (the answers decide that), but the model says `_eval` runs once
+                if not reevaluates:
+                    chk.stale.append({"kind": "evaluation-count", "case": inp["case"], "why": "a successful evaluation ran more than once "
+                                      "on one runner (Lazy model: eval_at_most_once)", "evals": r.get("same_evals")})
+                reevaluates = True
+            if "mutating" in r and bad is None:
                 first = dict((k, v) for k, v in r["mutating"][0])
                 for pos, (name, ans) in enumerate(r["mutating"][1]):
                     if ans != first[name] and bad is None:
@@ -711,6 +718,7 @@ def check_orders(chk, inputs, dumps0, workdir, stats):
                     reported.add(sig)
                     chk.violation(f"accessor `{bad[1]}` answers differently depending on the calls made before it ({bad[0]})",
                                   {"kind": "accessor-order", "case": inp["case"], "calls": bad[2], "accessor": bad[1], "where": bad[0]})
+    return reevaluates
 
 
 # ------------------------------------------------------------------------------------------------ known findings
@@ -749,6 +757,14 @@ def run(chk):
             kinds[x["kind"]] = kinds.get(x["kind"], 0) + 1
         stats["inputs"] = kinds
         log(f"[c11] {len(inputs)} inputs {kinds}; seeds {seeds}; {n_procs()} processes")
+        # accessor purity first, on a few small inputs with metadata: if accessor calls re-evaluate the script, the dump of every
+        # input costs one analysis per accessor and the sweep cannot finish in its budget - the violation is reported without it
+        pre = [x for x in inputs if x["kind"] == "targeted" and x["case"].get("metadata") and x["tag"].startswith("star/mdtable")][:6]
+        if run_orders(chk, pre, [list(W.DUMP_ORDER), list(reversed(W.DUMP_ORDER))], workdir, stats, "pre") and chk.violations:
+            stats["sweep"] = "skipped: accessor calls evaluate the script again (reported as a violation)"
+            log("[c11] accessor calls re-evaluate the script: hash-seed sweep skipped")
+            chk.coverage.update({"hash_seeds": seeds, "distribution": stats, "exhaustive": False})
+            return finish(chk)
         replay_findings(chk, workdir, stats)
         cases = [x["case"] for x in inputs]
         res = sweep(cases, seeds, workdir, "sw", 1700 if chk.tier == "thorough" else 600)
@@ -756,6 +772,7 @@ def run(chk):
         cl = Classifier(chk, drv)
         listed = sorted(e["id"] for e in chk.findings if e.get("status") == "finding")
         shrunk = {}
+        pending = []
         n_diff = 0
         raw_order = 0
         for inp in inputs:
@@ -780,6 +797,9 @@ def run(chk):
             if fid is not None and fid in listed:
                 chk.known(fid)
                 continue
+            pending.append((len(inp["case"]["sql"]), i, inp, a, b, fid, why, groups))
+        # report the smallest input of each kind of difference
+        for _, i, inp, a, b, fid, why, groups in sorted(pending, key=lambda t: t[:2]):
             sig = fid or re.sub(r"\[.*", "", why)
             if sig in shrunk or len(shrunk) >= 5:
                 continue
@@ -811,6 +831,10 @@ def run(chk):
     finally:
         shutil.rmtree(workdir, ignore_errors=True)
     chk.coverage.update({"hash_seeds": seeds, "distribution": stats, "exhaustive": False})
+    return finish(chk)
+
+
+def finish(chk):
     chk.assumptions += [
         "CPython: the iteration order of a set of str-hashed objects is a function of PYTHONHASHSEED (modelled as an arbitrary permutation)",
         "the element ORDER of the list `to_cytoscape` returns and its positional edge ids `e<i>` are not compared: they follow networkx "
@@ -835,6 +859,8 @@ def correspondence(chk, drv, inputs, res, seeds, cl):
     out = {"compared": 0, "agree": 0, "skipped_item_subquery": 0, "skipped_rejected": 0, "skipped_multi_rename": 0,
            "skipped_sqlparse_analyzer": 0, "order_sensitive_in_model": 0, "equal_to_model_order_0": 0, "disagree_established": 0, "disagree_other": 0}
     gen = [x for x in inputs if "ast" in x]
+    d16_open = chk.finding("D16") is not None
+    out["requirement"] = "member of the model's outcome set over iteration orders" if d16_open else "equal to the model's order 0"
     reqs = []
     for x in gen:
         for k in (0, 1):
@@ -872,14 +898,17 @@ def correspondence(chk, drv, inputs, res, seeds, cl):
         if len(outs) > 1:
             out["order_sensitive_in_model"] += 1
         out["compared"] += 1
-        # the repaired code (D16) iterates in FROM-clause order = the model's order 0 once `aliasMapping` follows the table group
-        # (patches/HolderOps-D16-alias-map-in-from-order.patch); reported, the requirement is membership in the outcome set
+        # the repaired code (D16) iterates the alias mapping in dict order = the model's order 0
         if len(views) == 1 and (views[0] == outs[0] or ("error" in views[0] and "error" in outs[0])):
             out["equal_to_model_order_0"] += 1
-        ok = all(in_model_outcomes(v, outs) for v in views)
-        if not ok:
-            more = model_outcomes(drv, x, 24) or outs
-            ok = all(in_model_outcomes(v, more) for v in views)
+        if d16_open:
+            ok = all(in_model_outcomes(v, outs) for v in views)
+            if not ok:
+                more = model_outcomes(drv, x, 24) or outs
+                ok = all(in_model_outcomes(v, more) for v in views)
+        else:
+            # D16 repaired: the code iterates the alias mapping in dict order = the model's order 0; every seed must give exactly that
+            ok = all(v == outs[0] or ("error" in v and "error" in outs[0]) for v in views)
         if ok:
             out["agree"] += 1
             continue
